@@ -13,6 +13,7 @@ import (
 	"sync/atomic"
 	"time"
 
+	"github.com/gorilla/websocket"
 	lime "github.com/takenet/lime-go"
 	"verif/harness/hs"
 )
@@ -144,6 +145,9 @@ func (w *Worker) Replay(c Case) Result {
 	if c.Cfg.Kind == "wsattr" {
 		return replayAttr(c)
 	}
+	if c.Cfg.Kind == "wsclose" {
+		return replayWsClose(c)
+	}
 	res := Result{N: c.N, Cfg: c.Cfg}
 	a, b, err := w.pair(c.Cfg)
 	if err != nil {
@@ -271,5 +275,69 @@ func replayAttr(c Case) Result {
 	defer st.Close()
 	res.Actual = []Ev{{K: "op", Op: "attr", Side: c.Cfg.URL, Res: "cli:" + string(ct.Encryption()) + ",srv:" + string(st.Encryption())}}
 	res.Matched = len(c.Obs) == 1 && c.Obs[0].Res == res.Actual[0].Res
+	return res
+}
+
+// replayWsClose: the server side of a websocket connection is closed through the transport; a raw peer
+// must see the TCP connection itself end, not only a close frame (a socket left open is a leak, and a
+// client left waiting on a connection nobody serves).
+func replayWsClose(c Case) Result {
+	res := Result{N: c.N, Cfg: c.Cfg}
+	bg := context.Background()
+	var lis lime.TransportListener
+	var addr *net.TCPAddr
+	var err error
+	for try := 0; try < 50; try++ {
+		addr = nextAddr()
+		lis = lime.NewWebsocketTransportListener(&lime.WebsocketConfig{})
+		if err = lis.Listen(bg, addr); err == nil {
+			break
+		}
+	}
+	if err != nil {
+		res.Note = "setup: " + err.Error()
+		return res
+	}
+	defer lis.Close()
+	d := websocket.Dialer{Subprotocols: []string{"lime"}, HandshakeTimeout: 2 * time.Second}
+	var cl *websocket.Conn
+	for i := 0; i < 50; i++ {
+		if cl, _, err = d.Dial("ws://"+addr.String()+"/", nil); err == nil {
+			break
+		}
+		time.Sleep(5 * time.Millisecond)
+	}
+	if err != nil {
+		res.Note = "setup: dial: " + err.Error()
+		return res
+	}
+	defer cl.Close()
+	ctx, cancel := context.WithTimeout(bg, 3*time.Second)
+	st, err := lis.Accept(ctx)
+	cancel()
+	if err != nil {
+		res.Note = "setup: accept: " + err.Error()
+		return res
+	}
+	_ = st.Close()
+	// whatever frames are still to be read, then the end of the TCP stream
+	raw := cl.UnderlyingConn()
+	out := "open"
+	buf := make([]byte, 4096)
+	raw.SetReadDeadline(time.Now().Add(800 * time.Millisecond))
+	for {
+		_, rerr := raw.Read(buf)
+		if rerr == nil {
+			continue
+		}
+		if ne, ok := rerr.(net.Error); ok && ne.Timeout() {
+			out = "open"
+		} else {
+			out = "closed"
+		}
+		break
+	}
+	res.Actual = []Ev{{K: "op", Op: "attr", Side: "wsclose", Res: out}}
+	res.Matched = len(c.Obs) == 1 && c.Obs[0].Res == out
 	return res
 }
